@@ -290,4 +290,4 @@ def _compare_behaviour(builds, shard, name, res: Result, w0):
 
 def replay(w):
     r = run_shard({"item": w["item"], "seed": 0, "n": 10})
-    return [v for v in r.violations if v["witness"].get("config") == w.get("config")] or []
+    return r.violations
